@@ -692,6 +692,11 @@ def directed_pairs(rng, ref_inventory, per_fn=4):
     lines = hot_lines(cur, hot)
     a5, mods = fresh_a5()
     pool = api_calls(rng, 80) + near_frame_calls(mods, rng, 90) + [('lonlat_to_cell', (p, rng.choice([0, 1, 5, 29]))) for p in tie_points(rng, 40)]
+    from refids import ref_id as _rid
+    for f_ in rng.sample(range(12), 4):
+        # the coarsest cells take code paths of their own (whole face / quintant outlines)
+        pool += [('cell_to_lonlat', (_rid(f_, 0, 0),)), ('cell_to_boundary', (_rid(f_, 0, 0), {'segments': 1})),
+                 ('cell_to_lonlat', (_rid(5 * f_ + rng.randrange(5), 0, 1),)), ('cell_to_boundary', (_rid(5 * f_ + rng.randrange(5), 0, 1), {'segments': 1}))]
     extra = []
     for c in pool:
         if c[0] == 'lonlat_to_cell' and rng.random() < 0.3:
@@ -709,6 +714,12 @@ def directed_pairs(rng, ref_inventory, per_fn=4):
         # stratified by call kind and resolution class (coarse cells mask or expose different things than fine ones)
         def bucket(c):
             r = c[1][1] if c[0] == 'lonlat_to_cell' else None
+            if c[0] in ('cell_to_lonlat', 'cell_to_boundary'):
+                from refids import ref_res as _rr
+                try:
+                    r = _rr(c[1][0])
+                except Exception:
+                    r = None
             return (c[0], None if r is None else (0 if r <= 1 else (1 if r <= 8 else 2)))
         groups = {}
         for c in cs:
@@ -789,7 +800,7 @@ def cache_corruption(mods):
         return None
     return None
 
-def preemption_search(rng, pairs, max_points, a5=None, hot=None, only_hot=False, stop_after=None, warm=False, busy=None):
+def preemption_search(rng, pairs, max_points, a5=None, hot=None, only_hot=False, stop_after=None, warm=False, busy=None, reimport=False):
     """for API calls A and B: run A under sys.settrace; at the k-th line event inside the library run B to completion
     (a context switch at that line boundary), then let A finish; A's result must equal its undisturbed result.
     Every k up to max_points per pair (systematic, context bound 2)."""
@@ -842,6 +853,9 @@ def preemption_search(rng, pairs, max_points, a5=None, hot=None, only_hot=False,
                         critical.append(nev[0]); break
                     f = f.f_back; depth += 1
             return counter
+        if reimport:
+            # a true cold start: the package is imported anew (lazily built module-level tables are empty again)
+            a5, mods = fresh_a5()
         cold_reset(mods)
         for wc in (busy or []):
             # a process that has already worked all over the globe (bounded caches are full, every lazily built table exists)
@@ -888,6 +902,8 @@ def preemption_search(rng, pairs, max_points, a5=None, hot=None, only_hot=False,
                             state['berr'] = type(e).__name__
                         sys.settrace(tracer)
                 return tracer
+            if reimport:
+                a5, mods = fresh_a5()
             cold_reset(mods)
             for wc in (busy or []):
                 try:
@@ -917,9 +933,9 @@ def preemption_search(rng, pairs, max_points, a5=None, hot=None, only_hot=False,
                 fails.append({'what': what, 'A': A, 'B': B, 'k': k, 'warm': warm, 'busy': [list(c) for c in (busy or [])]})
                 break
             if errA or resA != refA or state['berr'] or (state['bres'] is not None and state['bres'] != refB):
-                what = ((f'after a workload of {len(busy)} calls over all faces, ' if busy else '') + ('after the same call was made once, ' if warm else '') + f'{A[0]}{A[1]!r} interrupted at its line event {k}/{total} by {B[0]}{B[1]!r}: '
+                what = (('in a freshly imported package, ' if reimport else '') + (f'after a workload of {len(busy)} calls over all faces, ' if busy else '') + ('after the same call was made once, ' if warm else '') + f'{A[0]}{A[1]!r} interrupted at its line event {k}/{total} by {B[0]}{B[1]!r}: '
                         + (f'raises {errA}' if errA else ('returns a different value' if resA != refA else f'the interrupting call {"raises " + state["berr"] if state["berr"] else "returns a different value"}')))
-                fails.append({'what': what, 'A': A, 'B': B, 'k': k, 'warm': warm, 'busy': [list(c) for c in (busy or [])]})
+                fails.append({'what': what, 'A': A, 'B': B, 'k': k, 'warm': warm, 'busy': [list(c) for c in (busy or [])], 'reimport': reimport})
                 break
         if stop_after and len(fails) >= stop_after:
             break
@@ -961,6 +977,16 @@ def thread_soak(rng, ncalls, nthreads=8, rounds=2):
 # ---------------------------------------------------------------------------------------------
 # C17 search
 
+def typed(v):
+    """structure with the exact type of every element (`[False] == [0]` but a caller can tell them apart)"""
+    if isinstance(v, (list, tuple)):
+        return (type(v).__name__, tuple(typed(x) for x in v))
+    if isinstance(v, dict):
+        return (type(v).__name__, tuple((k, typed(x)) for k, x in v.items()))
+    if isinstance(v, float):
+        return ('float', fbits(v))
+    return (type(v).__name__, repr(v))
+
 def history_search(rng, nhist, hist_len):
     """random call histories on a warm copy, each call compared bit for bit with the same call on a cold copy"""
     fails, n = [], 0
@@ -976,7 +1002,7 @@ def history_search(rng, nhist, hist_len):
             except Exception as e:  # noqa
                 rw = ('EXC', type(e).__name__)
             n += 1
-            if args != before:
+            if args != before or typed(args) != typed(before):
                 fails.append({'what': f'{name} modified its argument {before!r}', 'history': hist[:idx + 1]}); break
             if idx % 3 == 0 or idx == len(hist) - 1:
                 a5c, _ = fresh_a5()
